@@ -91,7 +91,7 @@ def run(ctx):
     ctx.rule('C19.R4', 'TypeHint(h) goes through the locked cache keyed by the hint (cache_or_get_cached_func_return_'
              'passed_arg with key=hint) and unhashable hints fall back to an uncached wrapper (except TypeError)')
     mm = repo.mod('beartype.door._cls.doormeta')
-    call = repo.find_def(mm.name, '_TypeHintMeta.__call__', required=False)
+    call = repo.find_def(mm.name, '_TypeHintMetaclass.__call__', required=False)
     if call is None:
         for c in [n for n in mm.tree.body if isinstance(n, ast.ClassDef)]:
             for f in c.body:
